@@ -407,6 +407,18 @@ func (e *Executor) startExecution(ctx context.Context, t *ast.Task, execute func
 		e.executionHashesMutex.Unlock()
 		e.Logger.VerboseErrf(logger.Magenta, "task: skipping execution of task: %s\n", h)
 
+		// If that execution is one of the executions this call was made from,
+		// it is waiting for this call: a cycle of task references, which the
+		// call counter cannot see because nothing recurses any further
+		for c, _ := ctx.Value(executionChainKey{}).(*executionChain); c != nil; c = c.parent {
+			if c.hash == h {
+				return &errors.TaskCalledTooManyTimesError{
+					TaskName:        t.Task,
+					MaximumTaskCall: MaximumTaskCall,
+				}
+			}
+		}
+
 		// Release our execution slot to avoid blocking other tasks while we wait
 		reacquire := e.releaseConcurrencyLimit()
 		defer reacquire()
@@ -429,6 +441,10 @@ func (e *Executor) startExecution(ctx context.Context, t *ast.Task, execute func
 	ctx, cancel := context.WithCancel(ctx)
 	defer cancel()
 
+	// Everything called from this execution knows that it is running inside it
+	parentChain, _ := ctx.Value(executionChainKey{}).(*executionChain)
+	ctx = context.WithValue(ctx, executionChainKey{}, &executionChain{hash: h, parent: parentChain})
+
 	err = execute(ctx)
 	if err != nil {
 		finish(&executionFailedError{err: err})
@@ -437,6 +453,16 @@ func (e *Executor) startExecution(ctx context.Context, t *ast.Task, execute func
 	}
 	return err
 }
+
+// executionChain lists, innermost first, the deduplicated executions a call is
+// made from; it travels in the context under executionChainKey.
+type (
+	executionChainKey struct{}
+	executionChain    struct {
+		hash   string
+		parent *executionChain
+	}
+)
 
 // executionFailedError is the cancellation cause of the context registered for a
 // deduplicated execution that ended with an error.
